@@ -533,6 +533,11 @@ def case_M(draw):
     m["I1"] = {"ij": [draw(st.integers(1, nx)), draw(st.integers(1, ny))], "ref": _lin(draw, 1000, 3000),
                "diam": _lin(draw, 0.1, 0.4), "rate": _lin(draw, 10, 5000), "resv": _lin(draw, 10, 5000),
                "bhp": _lin(draw, 300, 600)}
+    # the producer may be specified a second time (WELSPECS on an existing well, by name or by a name template) with
+    # another reference depth / drainage radius: the later record counts
+    if draw(st.integers(0, 2)) == 0:
+        m["P1"]["respec"] = {"ref": _lin(draw, 1000, 3000), "drad": _lin(draw, 50, 500),
+                             "name": draw(st.sampled_from(["P1", "'P*'", "'P*1'"])), "later": draw(st.booleans())}
     m["G1"] = [_lin(draw, 100, 10000), _lin(draw, 100, 10000), _lin(draw, 1e4, 1e6), _lin(draw, 100, 20000)]
     m["TSTEP"] = [_lin(draw, 0.5, 40) for _ in range(draw(st.integers(1, 3)))]
     # keyword operations with a dimensioned scalar (the scalar is converted by another table than the array keyword's
@@ -602,6 +607,14 @@ def render_model(m, s):
     t += "WCONINJE\n I1 WATER OPEN RATE %s %s %s /\n/\n" % (c(i["rate"], LRATE), c(i["resv"], RRATE), c(i["bhp"], P))
     g = m["G1"]
     t += "GCONPROD\n G1 ORAT %s %s %s %s /\n/\n" % (c(g[0], LRATE), c(g[1], LRATE), c(g[2], GRATE), c(g[3], LRATE))
+    rs = p.get("respec")
+    if rs:
+        rec = "WELSPECS\n %s G1 %d %d %s OIL %s /\n/\n" % (rs["name"], p["ij"][0], p["ij"][1], c(rs["ref"], L), c(rs["drad"], L))
+        if rs["later"] and len(m["TSTEP"]) > 1:
+            # in a later report step (the model is observed at the last one)
+            t += "TSTEP\n %s /\n" % c(m["TSTEP"][0], T) + rec + "TSTEP\n %s /\n" % " ".join(c(u, T) for u in m["TSTEP"][1:])
+            return t
+        t += rec
     t += "TSTEP\n %s /\n" % " ".join(c(u, T) for u in m["TSTEP"])
     return t
 
@@ -1386,8 +1399,18 @@ class C02(Check):
             rates = p["rates"]
             want_prod = [si_of(rates[0], LRATE), si_of(rates[1], LRATE), si_of(rates[2], GRATE), si_of(rates[3], LRATE),
                          si_of(rates[4], RRATE), si_of(p["bhp"], P)]
-            r = (bad("P1.ref_depth", [w["P1"]["ref_depth"]], [si_of(p["ref"], L)]) or
-                 bad("P1.drainage_radius", [w["P1"]["drainage_radius"]], [si_of(p["drad"], L)]) or
+            pr = p.get("respec") or p
+            if p.get("respec") and p["respec"]["later"] and len(m["TSTEP"]) > 1:
+                # the second WELSPECS stands in report step 1: step 0 has the first values, the last step the second
+                pr = p
+                wl = steps[-1]["wells"]
+                r = (bad("P1.ref_depth after WELSPECS on the existing well", [wl["P1"]["ref_depth"]], [si_of(p["respec"]["ref"], L)]) or
+                     bad("P1.drainage_radius after WELSPECS on the existing well", [wl["P1"]["drainage_radius"]],
+                         [si_of(p["respec"]["drad"], L)]))
+                if r:
+                    return r
+            r = (bad("P1.ref_depth", [w["P1"]["ref_depth"]], [si_of(pr["ref"], L)]) or
+                 bad("P1.drainage_radius", [w["P1"]["drainage_radius"]], [si_of(pr["drad"], L)]) or
                  bad("P1.production limits (ORAT WRAT GRAT LRAT RESV BHP)", w["P1"]["prod"][:6], want_prod) or
                  bad("I1.ref_depth", [w["I1"]["ref_depth"]], [si_of(i["ref"], L)]) or
                  bad("I1.injection limits (RATE RESV BHP)", w["I1"]["inj"][:3],
